@@ -23,3 +23,34 @@ datetime_sec nextretry(datetime_sec birth, int c) { return ND_LONG(); }
 void del_start(int j, off_t mpos, char *recip) { V_ASSERT(!g_started, "C04: at most one delivery is started per record"); g_started = 1; g_start_j = j; g_start_mpos = mpos; }
 void job_close(int j) { g_jobclosed = 1; g_jobclosed_j = j; }
 #endif
+#ifdef P_DELREPORT
+extern int g_marked, g_mark_c, g_bounced, g_order_ok, g_closedjob, g_spawndied; extern unsigned long g_mark_id, g_bounce_id; extern off_t g_mark_pos; extern char *g_bounce_recip;
+void markdone(int c, unsigned long id, off_t pos) { V_ASSERT(!g_marked, "C04: a recipient is marked once"); g_marked = 1; g_mark_c = c; g_mark_id = id; g_mark_pos = pos; }
+void addbounce(unsigned long id, char *recip, char *report) { if (g_marked) g_order_ok = 0; g_bounced = 1; g_bounce_id = id; g_bounce_recip = recip; }
+void job_close(int j) { V_ASSERT(g_closedjob == -1, "C04: supporting: one job_close per report"); g_closedjob = j; }
+void spawndied(int c) { g_spawndied = 1; }
+void del_status(void) {}
+#endif
+#ifdef P_DELSTART
+extern int g_commwrites, g_cw_slot;
+void comm_write(int c, int delnum, unsigned long id, char *sender, char *recip) { ++g_commwrites; g_cw_slot = delnum; }
+void del_status(void) {}
+#endif
+#ifdef P_MAIN
+extern int g_mutated, g_announced[2], g_conf[2], g_nread, g_jobinit, numjobs; extern unsigned int concurrency[2];
+int getcontrols(void) { return ND_BOOL(); }
+void fnmake_init(void) {} void comm_init(void) {} void del_init(void) { g_mutated = 1; } void pass_init(void) {} void todo_init(void) { g_mutated = 1; } void cleanup_init(void) {}
+void pqstart(void) { g_mutated = 1; }
+void job_init(void)
+{
+  int c, sum = 0;
+  g_jobinit = 1;
+  V_ASSERT(g_nread == 2, "C04: both spawners announced their limit before any table is sized");
+  for (c = 0; c < 2; ++c) { int lim = g_conf[c] < g_announced[c] ? g_conf[c] : g_announced[c];
+    V_ASSERT((int)concurrency[c] == lim, "C04: the concurrency of a channel is the smaller of the configured value and the limit announced by its spawner (0..255)"); sum += lim; }
+  V_ASSERT(numjobs == sum, "C04: the job table has one entry per possible outstanding delivery");
+  V_COVER(g_announced[0] >= 128 && g_conf[0] > g_announced[0]);
+}
+int del_canexit(void) { return 1; }
+void pqfinish(void) {}
+#endif
